@@ -456,7 +456,7 @@ def supervise(prop, cfg, tier, seed, workdir, replay, t0, write_evidence=True):
                 sig = "%s:process-death:%s:%s" % (prop, cls, frames)
                 oc = opens[0] if opens else {}
                 violations.append(dict(property=prop, index=oc.get("idx", -1), sub=oc.get("sub", ""), sig=sig, mode=mode,
-                                       summary="child process died (%s, rc=%s) while executing a journalled case; top keto frames: %s" % (cls, c["rc"], frames),
+                                       summary="child process died (%s, rc=%s) %s; top keto frames: %s" % (cls, c["rc"], "while executing a journalled case" if opens else "outside any journalled case (set-up or tear-down call into keto)", frames),
                                        case=oc.get("case"), detail={"log_tail": _tail(c["log"])}))
             # partial results of a dead child are still counted from its journal? no: only complete results count
             continue
